@@ -22,6 +22,8 @@ Four streams (all randomness from ctx.rng):
             resolved source);
   pairs     (part of loop) two isolated sources in one image: an oblique source of axis ratio 2.2-2.5 and a compact one in
             an empty corner of its bounding box, footprints >= 6 beams apart; each judged as an isolated injected Gaussian;
+  debug     (part of loop) a slice re-run with the root, 'Aegean' and SourceFinder loggers at DEBUG: bit-identical results;
+  large     one island of 25 000 pixels (72 x 56 px FWHM, docov off) in quick, a larger one in thorough;
   witnesses deterministic: err_a/err_b (open finding) and err_ra/err_dec (sky angles, checked at |dec| = 84);
   loop      the closed loop itself, kind 'spec': an image rendered INDEPENDENTLY of Aegean's conventions
             (pixel centres -> sky with astropy.wcs in 1-based FITS coordinates; offsets on the sphere with the
@@ -234,6 +236,53 @@ def pair_case(ctx, c, record=True):
     return allbad, meas
 
 
+def fingerprint(out):
+    """everything a run reports about its components, bit for bit"""
+    keys = ('island', 'source', 'ra', 'dec', 'peak_flux', 'err_peak_flux', 'int_flux', 'err_int_flux', 'a', 'err_a', 'b', 'err_b',
+            'pa', 'err_pa', 'err_ra', 'err_dec', 'flags', 'local_rms', 'background', 'residual_mean', 'residual_std', 'psf_a', 'psf_b')
+    return [[(k, f2h(getattr(s, k)) if isinstance(getattr(s, k, None), (float, np.floating)) else repr(getattr(s, k, None))) for k in keys]
+            for s in out]
+
+
+def debug_slice(ctx, cases):
+    """logging must be an observer: each case is run at the default level and again with the root logger, the 'Aegean' logger
+    and the SourceFinder's own logger at DEBUG (handlers silenced); the two runs must report bit-identical components"""
+    _quiet()
+    for c in cases:
+        c = {k: v for k, v in c.items() if k not in ('debug',)}
+        img, h, w, truth = render(c)
+        if c.get('symmetric'):
+            img = symmetrize(img, c['xy'])
+        data = img + float(c.get('pedestal', 0.0))
+        try:
+            plain = fingerprint(with_timeout(CASE_TIMEOUT, find, ctx, c, data, h))
+            _quiet()
+            dbg = fingerprint(with_timeout(CASE_TIMEOUT, find, ctx, dict(c, debug=True), data, h))
+        except Exception as e:
+            ctx.case(c)
+            ctx.fail('spec', dict(c, pretty=pretty(c)), f"find_sources_in_image raised {type(e).__name__}: {e} (debug slice)",
+                     dict(site='find_sources_in_image', what='logging-dependence', clauses='raises'))
+            continue
+        finally:
+            _quiet()
+        ctx.case(dict(c, pretty=pretty(c), slice='debug'), 'debug:' + json.dumps(c, sort_keys=True))
+        ctx.count('debug-slice')
+        if plain != dbg:
+            diff = [(a[0], h2f(a[1]) if a[1].startswith('x') and len(a[1]) == 17 else a[1], h2f(b[1]) if b[1].startswith('x') and len(b[1]) == 17 else b[1])
+                    for sa, sb in zip(plain, dbg) for a, b in zip(sa, sb) if a != b][:8]
+            ctx.fail('spec', dict(c, pretty=pretty(c)),
+                     dict(failed=['logging-dependence'], components_default=len(plain), components_debug=len(dbg), first_differences=diff,
+                          note='the same image gives different results when the loggers are at DEBUG level'),
+                     dict(site='find_sources_in_image', what='logging-dependence'))
+
+
+# size-like dimension of the property: the number of pixels of an island.  18 x 14 beams, 25 000 island pixels (> 2^14),
+# docov off (the covariance matrix of such an island would not fit in memory)
+LARGE_CASE = dict(proj='SIN', n=[301, 299], crval=[210.0, 12.0], crpix=[150.0, 150.0], scale=3.6 / 3600.0,
+                  beam=[4.0 * 3.6 / 3600.0, 4.0 * 3.6 / 3600.0, 0.0], xy=[151.3, 148.6], a=72.0 * 3.6, b=56.0 * 3.6, pa=30.0,
+                  peak=1.0, docov=False, snr=1000.0)
+
+
 def pair_cases(rng):
     """an oblique elongated source (axis ratio 2.2-2.5, along a pixel diagonal) and a compact source in an empty corner of
     its bounding box, its footprint >= 6 beam widths from the big one's"""
@@ -300,8 +349,44 @@ def find(ctx, c, img, h):
     from AegeanTools.source_finder import SourceFinder
     fn = os.path.join(ctx.tmpdir(), 'c01-%d.fits' % os.getpid())
     fits.PrimaryHDU(data=img, header=h).writeto(fn, overwrite=True)
-    sf = SourceFinder(log=NULLLOG)
+    sf = SourceFinder(log=DEBUGLOG if c.get('debug') else NULLLOG)
     kw = dict(cores=1, docov=bool(c['docov']), innerclip=5, outerclip=4, nonegative=False, nopositive=False)
+    if c.get('debug'):
+        with debug_logging():
+            return _find_run(ctx, c, sf, fn, kw)
+    return _find_run(ctx, c, sf, fn, kw)
+
+
+DEBUGLOG = logging.getLogger('verif-c01-debug')
+DEBUGLOG.addHandler(logging.NullHandler())
+DEBUGLOG.propagate = False
+DEBUGLOG.setLevel(logging.DEBUG)
+
+
+class debug_logging(object):
+    """root logger and the 'Aegean' logger at DEBUG, every handler replaced by a NullHandler; restored on exit"""
+
+    def __enter__(self):
+        self.saved = []
+        for name in (None, 'Aegean'):
+            lg = logging.getLogger(name)
+            self.saved.append((lg, lg.level, list(lg.handlers), lg.propagate))
+            lg.handlers = [logging.NullHandler()]
+            lg.setLevel(logging.DEBUG)
+            if name:
+                lg.propagate = False
+        return self
+
+    def __exit__(self, *exc):
+        for lg, level, handlers, prop in self.saved:
+            lg.handlers = handlers
+            lg.setLevel(level)
+            lg.propagate = prop
+        return False
+
+
+def _find_run(ctx, c, sf, fn, kw):
+    from AegeanTools.source_finder import SourceFinder
     # option set: first letter rms, second bkg; f = forced by the caller, e = estimated internally (BANE)
     opts = c.get('opts') or ('ee' if c.get('bane') else 'ff')
     if opts[0] == 'f':
@@ -1189,6 +1274,12 @@ def run(ctx):
             stalled.add(c.get('opts'))
     for c in pair_cases(ctx.rng):
         pair_case(ctx, c)
+    loop_case(ctx, LARGE_CASE)
+    if not ctx.quick:
+        loop_case(ctx, dict(LARGE_CASE, n=[420, 400], crpix=[200.0, 210.0], xy=[207.4, 195.2], a=110.0 * 3.6, b=70.0 * 3.6, pa=-52.0, peak=-2.0))
+    sample = [gen_case(ctx.rng, True) for _ in range(6 if ctx.quick else 30)]
+    debug_slice(ctx, [KNOWN_INT_FLUX, KNOWN_SPLIT_RIDGE] + [c for c in sample if not c.get('symmetric')]
+                + [dict(resolved_option_cases(ctx.rng)[1])])
     corr_leaves(ctx)
     corr_residual(ctx)
     corr_convert(ctx)
